@@ -1,4 +1,5 @@
 import JetVerif.Props.C07
+import JetVerif.Props.Restore
 open JetVerif.Props.C07
 #print axioms scope_and_context_restored
 #print axioms expression_restores
@@ -7,3 +8,8 @@ open JetVerif.Props.C07
 #print axioms lookup_innermost_first
 #print axioms assign_undeclared_fails
 #print axioms assign_innermost
+#print axioms JetVerif.Props.Restore.jet_restore_idioms_as_modelled
+#print axioms JetVerif.Props.Restore.jet_writer_restored_by_defer
+#print axioms JetVerif.Props.Restore.jet_handlers_restore_everything
+#print axioms JetVerif.Props.Restore.jet_include_scope_and_context_deferred
+#print axioms JetVerif.Props.Restore.jet_content_closure_restores_by_defer
